@@ -17,6 +17,7 @@ type wshape struct {
 	n     int
 	edges [][2]int
 	unsel []int
+	alias []int // nodes that are aliases (they carry no work but order their dependants)
 }
 
 var wshapes = []wshape{
@@ -28,6 +29,8 @@ var wshapes = []wshape{
 	{n: 3, edges: [][2]int{{0, 1}, {1, 2}}, unsel: []int{2}},        // unselected dependant
 	{n: 4, edges: [][2]int{{0, 1}, {0, 2}, {1, 3}, {2, 3}}},         // diamond
 	{n: 4, edges: [][2]int{{0, 2}, {1, 2}, {2, 3}}},                 // join then chain
+	{n: 4, edges: [][2]int{{0, 1}, {1, 3}, {2, 3}}, alias: []int{1}}, // join with one dependency behind an alias
+	{n: 3, edges: [][2]int{{0, 1}, {1, 2}}, alias: []int{1}},         // chain through an alias
 }
 
 type walkMonitor struct {
@@ -52,8 +55,16 @@ func buildWalkGraph(sh wshape) ([]model.BuildNode, *DirectedTargetGraph, *walkMo
 	for i := range nodes {
 		nodes[i] = &model.Target{Label: label.TL("p", fmt.Sprintf("n%d", i)), IsSelected: true}
 	}
+	for _, a := range sh.alias {
+		nodes[a] = &model.Alias{Label: label.TL("p", fmt.Sprintf("n%d", a)), IsSelected: true}
+	}
 	for _, u := range sh.unsel {
 		nodes[u].(*model.Target).IsSelected = false
+	}
+	for _, e := range sh.edges {
+		if al, ok := nodes[e[1]].(*model.Alias); ok {
+			al.Actual = nodes[e[0]].GetLabel()
+		}
 	}
 	g := NewDirectedGraphFromTargets(nodes...)
 	m := &walkMonitor{n: sh.n, started: make([]int, sh.n), finished: make([]bool, sh.n), failed: make([]bool, sh.n), selected: make([]bool, sh.n)}
@@ -163,6 +174,11 @@ func pickFailing(sh wshape, allowNone bool) (int, bool) {
 	for _, u := range sh.unsel {
 		if u == f {
 			return 0, false
+		}
+	}
+	for _, a := range sh.alias {
+		if a == f {
+			return 0, false // aliases do not execute anything and cannot fail
 		}
 	}
 	return f, true
